@@ -46,6 +46,13 @@ CANARIES = [
     ('commit-leak-old-freelist', 'C02', 'src/tx.rs', '                freelist.free(self.meta.freelist_page, self.num_freelist_pages);\n', ''),
     ('commit-skip-last-page', 'C02', 'src/tx.rs', 'for (page_id, (ptr, size)) in freelist.pages.iter() {', 'for (page_id, (ptr, size)) in freelist.pages.iter().skip(1) {'),
     ('commit-unwrap-write', 'C11', 'src/tx.rs', '                    file.write_all(buf)?;', '                    file.write_all(buf).unwrap();'),
+    ('txnew-ignore-readers', 'C03', 'src/tx.rs', 'freelist.release(open_ro_txs[0]);', 'freelist.release(meta.tx_id);'),
+    ('txnew-unsorted-readers', 'C03', 'src/tx.rs', '                open_ro_txs.sort_unstable();\n', ''),
+    ('txnew-reader-not-registered', 'C03', 'src/tx.rs', '                open_ro_txs.push(meta.tx_id);\n', ''),
+    ('txnew-no-txid-bump', 'C03', 'src/tx.rs', '                meta.tx_id += 1;\n', ''),
+    ('txnew-release-one-more', 'C03', 'src/tx.rs', 'freelist.release(open_ro_txs[0]);', 'freelist.release(open_ro_txs[0] + 1);'),
+    ('txdrop-remove-first', 'C03', 'src/tx.rs', 'open_txs.remove(index);', 'open_txs.remove(0);'),
+    ('txdrop-writer-deregisters', 'C03', 'src/tx.rs', '        if !self.lock.writable() {\n            let mut open_txs', '        if self.lock.writable() {\n            let mut open_txs'),
 ]
 
 
